@@ -787,7 +787,7 @@ pub fn gen_hist(rng: &mut Rng, codes: &[u16], n_events: usize, burst: bool) -> V
 const GAPS: [u32; 3] = [0, 1, 2];
 
 fn exh_n(tier: Tier) -> usize {
-    tier.sel(6, 8)
+    tier.sel(6, 7)
 }
 /// exhaustive cases: (config, first three key choices)
 fn n_exh_cases() -> u64 {
@@ -1003,7 +1003,7 @@ impl Check for C04Check {
     }
     fn floors(&self, ctx: &Ctx) -> Vec<(&'static str, u64)> {
         vec![
-            ("histories_exhaustive", ctx.tier.sel(1_000_000, 100_000_000)),
+            ("histories_exhaustive", ctx.tier.sel(1_000_000, 10_000_000)),
             ("histories_random", ctx.tier.sel(10_000, 250_000)),
             ("release_on_changed_layer_stack", 100_000),
             ("press_resolved_below_top_layer", 100_000),
